@@ -212,12 +212,20 @@ def r5_persistent_locals(ctx):
               "request_result no longer carries the keep set of the committed bindings", ev.loc(0))
 
 
+def r6_line_merge(ctx):
+    """each line's bytecode is merged through fresh remap tables fed only by register_*/import_* results, and every merged function is the
+    output of remap_function (shared with C07/C10): a shortcut that bypasses the remap makes a later line run another session's code"""
+    from rules import c07
+    c07.r5_remap_order_and_freshness(ctx, "R-C11-6")
+
+
 def run(ctx):
     r1_commit_after_success(ctx)
     r2_compact(ctx)
     r3_clones(ctx)
     r4_resume_feeds_result(ctx)
     r5_persistent_locals(ctx)
+    r6_line_merge(ctx)
     return (
         "Decides the ordering/commit clauses behind 'a rejected line leaves the session exactly as it was' and the alignment plumbing: session "
         "fields and the process are touched only after the compile succeeded, compaction precedes compilation and re-indexes bindings and locals by "
